@@ -553,8 +553,29 @@ def register_parse(R):
             lst.hint = "int" if c in (0, 1, 6) else "real"
         return True
 
+    def the_handle(v):
+        """the text handle over the source being parsed (whatever local holds it)"""
+        hs = [h for h in IOX.handles_in(v) if h.src.eq(v["fname"].z)]
+        return hs[0] if len(hs) == 1 else None
+
     def K(v):
-        return to_z3(v["_k0"], "int")
+        """number of lines of the source the reading loop has dealt with at its head: a `for` loop over a sequence of lines the handle
+        handed out (iteration, readlines, read + splitlines ...) is `_k0` items into that sequence, which starts at line `seq_start`; a
+        `while` loop that pulls the lines itself (readline / next) stands where the handle's ghost cursor stands"""
+        h = the_handle(v)
+        if "_k0" in v:
+            return to_z3(v["_k0"], "int") + (h.cursor.seq_start if h is not None else 0)
+        if h is None:
+            raise Unsupported("parse_swc: a reading loop without a sequence index and without a text handle over the source")
+        return h.cursor.z
+
+    def loop_moves_the_cursor(eng, fr):
+        """loop state the body reaches through the handle only: its ghost cursor, when the loop pulls lines itself (a `while` loop; a
+        `for` loop over a handed-out sequence is positioned by its own index)"""
+        from pyvc.loops import _visible
+
+        vs = _visible(fr)
+        return IOX.Cursors([] if "_k0" in vs else [h.cursor for h in IOX.handles_in(vs)])
 
     def inv_equal(E, v, o):
         f, ne = ctx(v)
@@ -688,6 +709,7 @@ def register_parse(R):
                        ("fields-are-the-conversions-of-the-row-groups", inv_fields),
                        ("comments-so-far", inv_comments),
                        ("lines-so-far-read-and-classified", inv_consumed)],
+            modifies=[loop_moves_the_cursor],
             types={"comments": "ref"})},
         options=dict(asserts_after={"vals": [("element-types-declared", declare_element_types)]}),
         notes="number of lines, every line, every token and every converted value symbolic/abstract; the inner loop over the "
